@@ -83,7 +83,7 @@ def configs(tier):
                     modes += ["single:%d" % i for i in range(nvar)]
                     if ks[0] in ("default", "sum"):
                         modes += ["singlestr:%d" % i for i in (0, nvar - 1)]    # index given as a string
-                if rep_max == 1 and nvar <= (4 if tier == "thorough" else 3) and (gi < 5 or tier == "thorough") \
+                if rep_max == 1 and nvar <= (4 if tier == "thorough" else 3) and gi < (7 if tier == "thorough" else 5) \
                         and ks in (("rep", 0), ("sum", 3), ("sum", 5), ("default", 0)):
                     # a results file name is set, so partial results are kept and every further simulate()
                     # on the same runner RESUMES from them: sequences of (target, limit) steps with the
@@ -99,7 +99,7 @@ def configs(tier):
                     else:
                         bound = 3 if calls <= 5 else (2 if calls <= 10 else 1)
                     if mode.startswith("resume:"):
-                        bound = (2 if calls <= 6 else 1) if tier == "thorough" else 1
+                        bound = (2 if calls <= 4 else 1) if tier == "thorough" else 1
                     out.append(dict(grid=gi, lengths=lengths, as_array=list(arr), rep_max=rep_max,
                                     keep=list(ks), mode=mode, bound=bound))
     return out
@@ -113,7 +113,7 @@ def resume_modes(tier, has_grid, ks):
         return []
     pats = ["aaa"] + (["asa", "saa", "ssa"] if has_grid else [])
     if thorough:
-        pats += ["aa"] + (["aas", "sas", "sss", "as", "sa"] if has_grid else [])
+        pats += ["aa"] + (["as", "sa"] if has_grid else [])
     out = []
     for pat in pats:
         for ls in itertools.product(lim, repeat=len(pat)):
